@@ -17,8 +17,8 @@ pub struct Case {
 
 #[derive(Clone, Debug, Serialize, Deserialize)]
 pub enum Unit {
-    /// exhaustive DFS below the given first choice
-    Dfs { cfg: SrvConfig, first: usize },
+    /// exhaustive DFS below the given prefix of choices
+    Dfs { cfg: SrvConfig, prefix: Vec<usize> },
     /// random deeper paths
     Random { cfg: SrvConfig, seed: u64, count: usize },
     /// strategy-driven paths with requests and responses delivered separately
@@ -100,19 +100,19 @@ pub fn next_script(script: &[usize], branching: &[usize], fixed_prefix: usize) -
 
 fn run_unit(u: &Unit, emit: &mut dyn FnMut(UnitResult)) {
     match u {
-        Unit::Dfs { cfg, first } => {
-            let mut script = vec![*first];
+        Unit::Dfs { cfg, prefix } => {
+            let mut script = prefix.clone();
             loop {
                 let case = Case { cfg: cfg.clone(), plan: Plan { script: script.clone(), ..Default::default() } };
                 let (r, obs) = test_case(&case);
-                if obs.branching.first().map(|b| *first >= *b).unwrap_or(true) {
-                    break; // this first choice does not exist
+                if prefix.iter().enumerate().any(|(d, c)| obs.branching.get(d).map(|b| *c >= *b).unwrap_or(true)) {
+                    break; // this prefix does not exist
                 }
                 match r {
                     Ok(i) => emit(UnitResult::Ok(i)),
                     Err(f) => emit(UnitResult::Fail(f, serde_json::to_value(&case).unwrap())),
                 }
-                match next_script(&script, &obs.branching, 1) {
+                match next_script(&script, &obs.branching, prefix.len()) {
                     Some(s) => script = s,
                     None => break,
                 }
@@ -190,8 +190,11 @@ pub fn configs(n: usize, consts_parties: usize, seed: u64, all_leaders: bool) ->
 pub fn units(tier: Tier, seed: u64) -> Vec<Unit> {
     let mut u = vec![];
     let mut add_dfs = |cfg: SrvConfig| {
+        // split by the first two choices (prefixes that do not exist end immediately)
         for first in 0..cfg.n() {
-            u.push(Unit::Dfs { cfg: cfg.clone(), first });
+            for second in 0..=cfg.n() {
+                u.push(Unit::Dfs { cfg: cfg.clone(), prefix: vec![first, second] });
+            }
         }
     };
     for c in 0..=2 {
